@@ -3,6 +3,7 @@ package main
 
 import (
 	"math/rand"
+	"strings"
 	"time"
 )
 
@@ -66,6 +67,19 @@ func scriptList() []spec {
 			add(spec{Script: "size-bound", Kind: kind, Workers: 1, MaxSize: m})
 		}
 	}
+	// every scheduling entry point (ExecuteAt / ExecuteAfter) as first and as rescheduling call of one identifier, with
+	// instants / delays from {far negative, -1ns, 0, +1ns, small, far future, zero Time, past}; workers gated, Ignore flush
+	n := 0
+	for _, a := range entryClasses {
+		for _, b := range entryClasses {
+			n++
+			out = append(out, spec{Script: "resched-entrypoints", Kind: kTask, Workers: 1 + n%2, Flags: fIgnore, A: a, B: b, Probe: n%5 == 0, Index: len(out)})
+		}
+	}
+	for _, a := range entryClasses { // first call on an idle executor: whatever is due must have run by quiescence
+		out = append(out, spec{Script: "entrypoint-idle", Kind: kTask, Workers: 2, Flags: fIgnore, A: a, Index: len(out)})
+		out = append(out, spec{Script: "entrypoint-idle", Kind: kExec, Workers: 1, Flags: fIgnore, A: a, Index: len(out)})
+	}
 	// far-future / far-past / other-representation instants mixed with due elements in one heap (all workers held at gates)
 	for _, kind := range []string{kQueue, kExec, kTask} {
 		for _, w := range []int{1, 1, 2} {
@@ -107,6 +121,44 @@ func scriptList() []spec {
 		}
 	}
 	return out
+}
+
+var entryClasses = []string{"after:farneg", "after:-1ns", "after:0", "after:+1ns", "after:small", "after:far",
+	"at:zero", "at:y1", "at:past", "at:now", "at:small", "at:y3000"}
+
+// applyClass sets entry point and time of an element from a class name.
+func applyClass(it *item, cls string) {
+	switch cls {
+	case "after:farneg":
+		it.via, it.delayNs = "after", -int64(2*time.Hour)
+	case "after:-1ns":
+		it.via, it.delayNs = "after", -1
+	case "after:0":
+		it.via, it.delayNs = "after", 0
+	case "after:+1ns":
+		it.via, it.delayNs = "after", 1
+	case "after:small":
+		it.via, it.delayNs = "after", int64(2*time.Millisecond)
+	case "after:far":
+		it.via, it.delayNs = "after", int64(2*time.Hour)
+	case "at:zero":
+		it.when = "zero"
+	case "at:y1":
+		it.when = "y1"
+	case "at:past":
+		it.offUs = -1000
+	case "at:now":
+		it.offUs = 0
+	case "at:small":
+		it.offUs = 2000
+	case "at:y3000":
+		it.when = "y3000"
+	default:
+		panic("class " + cls)
+	}
+	if it.via == "after" {
+		it.offUs = it.delayNs / 1000
+	}
 }
 
 func shutdownLeft(o obs) bool { return o.shutdown != 2 }
@@ -258,6 +310,47 @@ func (r *run) script() {
 		} else {
 			r.open(g)
 		}
+
+	case "resched-entrypoints":
+		var gs []*item
+		for i := 0; i < sp.Workers; i++ { // all workers held at gates: whatever is scheduled stays pending, whatever its time
+			g := r.appendItem(100+i, -1000, true)
+			r.schedule(g)
+			r.waitStarted(g)
+			gs = append(gs, g)
+		}
+		a := r.appendItem(1, 0, false)
+		applyClass(a, sp.A)
+		r.schedule(a)
+		o := r.appendItem(2, 1500, false) // a bystander with another identifier
+		r.schedule(o)
+		r.settle(nil)
+		b := r.appendItem(1, 0, false)
+		applyClass(b, sp.B)
+		r.schedule(b) // the same identifier again through the other (or the same) entry point: must replace a
+		r.settle(nil)
+		if r.lastObs.inCallback == sp.Workers && a.accepted.Load() && b.accepted.Load() && a.starts.Load() == 0 {
+			r.patterns["gated:resched-entrypoints"] = true
+			r.cnt["resched_pairs:"+strings.SplitN(sp.A, ":", 2)[0]+">"+strings.SplitN(sp.B, ":", 2)[0]]++
+		}
+		if sp.Probe {
+			r.cancelID(1) // pending replacement: must be prevented
+			r.settle(nil)
+		}
+		for _, g := range gs {
+			r.open(g)
+		}
+
+	case "entrypoint-idle":
+		r.settle(nil)
+		a := r.appendItem(1, 0, false)
+		applyClass(a, sp.A)
+		r.schedule(a)
+		if a.far <= 0 {
+			r.waitStarted(a) // false = structurally impossible; the lost element is reported at quiescence
+			r.patterns["gated:entrypoint-idle-due"] = true
+		}
+		r.settle(nil)
 
 	case "far-mix":
 		var gs []*item
@@ -442,6 +535,24 @@ func genSpec(rng *rand.Rand, idx int) spec {
 				case q < 20 && sp.Flags&fIgnore != 0:
 					op.When = farFutureWhens[rng.Intn(len(farFutureWhens))] // handed out by Shutdown(IgnorePendingTimeouts) only
 				}
+				if sp.Kind != kQueue && op.When == "" && rng.Intn(3) == 0 { // the other entry point
+					op.Via = "after"
+					switch q := rng.Intn(10); {
+					case q == 0:
+						op.DelayNs = -int64(time.Hour) - int64(rng.Intn(1000))
+					case q == 1:
+						op.DelayNs = -1
+					case q == 2:
+						op.DelayNs = 0
+					case q == 3:
+						op.DelayNs = 1
+					case q == 4 && sp.Flags&fIgnore != 0:
+						op.DelayNs = int64(2 * time.Hour)
+					default:
+						op.DelayNs = op.OffUs * 1000
+					}
+					op.OffUs = op.DelayNs / 1000
+				}
 				if op.Gated {
 					gatedItems = append(gatedItems, op.Item)
 				}
@@ -579,6 +690,7 @@ func runRandom(sp spec) *run {
 			if op.T == "add" {
 				r.items[op.Item] = r.newItem(op.Item, op.ID, op.OffUs, op.Gated)
 				r.items[op.Item].when = op.When
+				r.items[op.Item].via, r.items[op.Item].delayNs = op.Via, op.DelayNs
 			}
 		}
 	}
